@@ -74,7 +74,29 @@ def siblings(c, cases):
         same = v["impl"] == v["orig"]["impl"] and v["impl"].startswith("ok") and open(v["impl_rs"], "rb").read() == open(v["orig"]["impl_rs"], "rb").read()
         if not same:
             fails.append(("unreachable-sibling-changes-output", f"{v['what']}: output with the sibling differs from the output without it ({v['orig']['impl']} vs {v['impl']}); files {sorted(os.listdir(v['in']))}, start {v['start']}", v))
-    c.cov["unreachable_siblings"] = {"base_inputs": len(base), "variants": tally, "differing": len(fails)}
+    # the same through the command-line tool, whose own code collects the siblings (utils.rs: the start file is registered first, then
+    # the directory in the order the OS lists it) — the in-process harness registers files sorted by name
+    from .common import sh, REPO
+    from . import c17
+    rc, out, err = sh(["cargo", "build", "--offline", "-q", "-p", "zeep", "--target-dir", c17.BIN_DIR], cwd=REPO, timeout=3000)
+    cli = os.path.join(c17.BIN_DIR, "debug", "zeep")
+    cli_runs = 0
+    if rc == 0 and os.path.exists(cli):
+        def run_cli(case):
+            o = os.path.join(case["dir"], "cli_out.rs")
+            r, so, se = sh([cli, "-i", os.path.join(case["in"], case["start"]), "-o", o], timeout=120)
+            return (r, open(o, "rb").read() if r == 0 and os.path.exists(o) else b"")
+        cache = {}
+        for v in variants:
+            oc = v["orig"]
+            if id(oc) not in cache:
+                cache[id(oc)] = run_cli(oc)
+            cli_runs += 1
+            if run_cli(v) != cache[id(oc)]:
+                fails.append(("unreachable-sibling-changes-output", f"{v['what']} (command-line tool): output with the sibling differs from the output without it; files {sorted(os.listdir(v['in']))}, start {v['start']}", v))
+    else:
+        c.proof["errors"].append("the zeep binary does not build: " + (out + err)[-300:])
+    c.cov["unreachable_siblings"] = {"base_inputs": len(base), "variants": tally, "cli_runs": cli_runs, "differing": len(fails)}
     return fails + st.refinement_coverage(c, cases)
 
 
